@@ -13,5 +13,5 @@ NEXT Next
 VIEW View
 CONSTRAINT Bound
 INVARIANTS TypeOK ViewsAgree HashOnly RestartIsIdentity
-PROPERTIES NewCanLogin DeletedCannotLogin PasswordSemantics RenamedAwayCannotLogin ReadOnlySteps
+PROPERTIES NewCanLogin DeletedCannotLogin PasswordSemantics RenamedAwayCannotLogin ReadOnlySteps RoundOfOne
 CHECK_DEADLOCK FALSE
